@@ -1,5 +1,6 @@
 import OV.Model.C14History
 import OV.Gen.C14Stash
+import OV.Gen.C14Globals
 import OV.Drivers.Loop
 /-! Line-protocol driver for C14.
 
@@ -20,6 +21,10 @@ import OV.Drivers.Loop
 * `C14 fresh <model value names csv|-> <k>`                                → `<new names csv>`  (`apply_to_model` naming `k` new values)
 * `C14 vcnames <model value names csv|-> <k>`                              → `<new names csv> namefix=<0|1>`  (ConvertVersionPass call)
 * `C14 rowcover <rule> W=<csv> R2=<csv>`  (unions over all monitored try_rewrites of the run)  → `exact` | `slack:<why>` | `unknown`
+* `C14 etrace <EntryClass> <events r:<field>,w:<field>,…|->`  (ONE monitored call of an entry method, completed or
+  abandoned by an exception; first occurrence of each access in order)  → `conforms` | `reject:<why>` | `unknown`
+* `C14 ecover <EntryClass> W=<csv>`  (union of the fields assigned over all monitored calls of the run) → `exact` | `slack:<csv>` | `unknown`
+* `C14 evalgap <domain|~> <op> <opset version>`  (does the folder leave a constant-input node alone for want of an evaluator) → `left=<0|1>`
 * `C14 castable <fn1 consts csv|-> <fn2 consts csv|-> <arg>`        → `castlike=<0|1> resets=<0|1>`
 -/
 namespace OV.Drivers.C14
@@ -264,6 +269,27 @@ def handle (args : List String) : String :=
       if !unseenW.isEmpty then "slack:listed-write-never-observed:" ++ showCsv unseenW
       else if !unseenR.isEmpty then "slack:listed-read-never-observed:" ++ showCsv unseenR
       else "exact"
+  | ["etrace", cls, evs] =>
+    match OV.Gen.C14Globals.entryRows.find? (fun e => e.name == cls) with
+    | none => "unknown"
+    | some e =>
+      let es : List Ev := (csv evs).filterMap (fun t =>
+        if t.startsWith "r:" then some (.r (t.drop 2).toString)
+        else if t.startsWith "w:" then some (.w (t.drop 2).toString) else none)
+      if es.length != (csv evs).length then "ERR:parse"
+      else
+        -- `traceCheck` is `traceOk` (the theorem's check) plus "assigned fields are listed in the row"
+        let verdict := traceCheck e.consts e.mayWrite [] es
+        if verdict == "conforms" && !(traceOk e.consts [] es) then "ERR:checks-disagree" else verdict
+  | ["evalgap", dom, op, ver] =>
+    s!"left={b01 (evaluatorGap (if dom == "~" then "" else dom) op (ver.toNat?.getD 0))}"
+  | ["ecover", cls, w] =>
+    match OV.Gen.C14Globals.entryRows.find? (fun e => e.name == cls) with
+    | none => "unknown"
+    | some e =>
+      let W := csv (afterEq w)
+      let unseen := e.mayWrite.filter (fun f => !W.contains f)
+      if unseen.isEmpty then "exact" else "slack:" ++ showCsv unseen
   | ["castable", c1, c2, arg] =>
     let resets := OV.Gen.C14Stash.converterFacts.resetFields.contains "_castable"
     s!"castlike={b01 (insertsCastLike (castableAfter resets (csv c1) (csv c2)) arg)} resets={b01 resets}"
